@@ -34,6 +34,7 @@ instance : Scalar Float where
   atan2 := Float.atan2
   pow := Float.pow
   fmod := floatFmod
+  log10 := Float.log10
   pi := 3.141592653589793238462643383279502884
   eps := Float.ofBits 0x3cb0000000000000      -- 2^-52
   dblMin := Float.ofBits 0x0010000000000000   -- 2^-1022
